@@ -1,10 +1,12 @@
 import GdVerif.Run.Reader
 import GdVerif.Run.Valve
 import GdVerif.Run.GenValve
+import GdVerif.Run.ValveFaults
 import GdVerif.Run.Gs1
 import GdVerif.Run.GenGs1
 import GdVerif.Run.Gs2
 import GdVerif.Run.GenGs2
+import GdVerif.Run.Gs2Faults
 import GdVerif.Run.Master
 import GdVerif.Run.GenMaster
 import GdVerif.Run.Settings
@@ -16,6 +18,7 @@ import GdVerif.Run.Real
 import GdVerif.Run.Cli
 import GdVerif.Run.Quake
 import GdVerif.Run.GenQuake
+import GdVerif.Run.QuakeFaults
 import GdVerif.Run.Unreal2
 import GdVerif.Run.GenUnreal2
 import GdVerif.Run.Minecraft
@@ -23,8 +26,11 @@ import GdVerif.Run.GenMinecraft
 import GdVerif.Run.Gs3
 import GdVerif.Run.Jc2m
 import GdVerif.Run.GenGs3
+import GdVerif.Run.Gs3Faults
 import GdVerif.Run.GenJc2m
+import GdVerif.Run.Jc2mFaults
 import GdVerif.Run.Small
+import GdVerif.Run.FfowFaults
 /-
   gdmodel: the model behind a line protocol.
     gdmodel run        : reads `<id> <entry> <args…>` lines on stdin, prints `<id> <outcome>`
@@ -39,6 +45,7 @@ open Gd Gd.Run
 def allEntries : List (String × (List String → String)) := List.flatten [
   readerEntries,
   valveEntries,
+  valveFaultEntries,
   masterEntries,
   settingsEntries,
   viewEntries,
@@ -48,13 +55,18 @@ def allEntries : List (String × (List String → String)) := List.flatten [
   realEntries,
   cliEntries,
   quakeEntries,
+  quakeFaultEntries,
   unreal2Entries,
   McDrv.minecraftEntries,
   gs3Entries,
+  gs3FaultEntries,
   jc2mEntries,
+  jc2mFaultEntries,
   smallEntries,
+  ffowFaultEntries,
   gs1Entries,
-  gs2Entries
+  gs2Entries,
+  gs2FaultEntries
   ]
 
 def runLine (line : String) : String :=
